@@ -43,11 +43,11 @@ func bceResidue(s3 *S3) (map[string]bool, error) {
 }
 
 type c14 struct {
-	r       *Report
-	s3      *S3
-	p       *Program
-	info    *types.Info
-	residue map[string]bool
+	r                     *Report
+	s3                    *S3
+	p                     *Program
+	info                  *types.Info
+	residue               map[string]bool
 	nIdx, nProved, nIdiom int
 }
 
